@@ -1,6 +1,11 @@
 package xixi_kv
 
-import "strconv"
+import (
+	"strconv"
+
+	"github.com/XiXi-2024/xixi-kv/datafile"
+	"github.com/XiXi-2024/xixi-kv/fio"
+)
 
 // vDump is the observable mapping restricted to the pool keys.
 type vDumpT struct {
@@ -329,8 +334,15 @@ func verifHarnessCrash() {
 			same = verifAnd(same, verifBytesEq(d1.vals[i], d2.vals[i]))
 		}
 		verifAssert(same, id+".recovered-state-not-stable")
-		// a finished merge (non-empty marker) is adopted by a completed Open: none may be left
-		verifAssert(verifFSLen(opts.DirPath+"-merge/000000000.merge-finished") <= 0, id+".finished-merge-not-adopted")
+		// a finished merge (READABLE marker; a torn or empty one is an unfinished merge) is adopted by a completed
+		// Open: none may be left
+		if verifFSLen(opts.DirPath+"-merge/000000000.merge-finished") > 0 {
+			mf, merr := datafile.OpenFile(opts.DirPath+"-merge", 0, datafile.MergeFinishedFileSuffix, fio.StandardFIO)
+			if merr == nil {
+				verifAssert(mf.ReadMergeFinRecord() == 0, id+".finished-merge-not-adopted")
+				_ = mf.Close()
+			}
+		}
 	}
 	verifReach("done")
 	if verifParam("witness") == 1 {
